@@ -10,6 +10,7 @@ import (
 	"encoding/binary"
 	"encoding/hex"
 	"fmt"
+	"github.com/influxdata/influxdb/storage/reads/datatypes"
 	"io"
 	"net"
 	"os"
@@ -33,6 +34,9 @@ type Prop struct{}
 func (Prop) ID() string    { return "C15" }
 func (Prop) Model() string { return "c15" }
 func (Prop) Parallel() int { return 1 }
+
+// KeepOp: the first op of a case writes the standard points; the shrinker keeps it
+func (Prop) KeepOp(i int, op string) bool { return i == 0 && op == "ping" }
 func (Prop) Describe(cfg *fw.Config) {
 	cfg.Rule = "byte streams to the cluster listener of a real node in a child process: every message type 0..45 and 200/255 x length prefixes {-2^63, -1, 0, 1, exact, exact±1, 2^31, MaxMessageSize, 2^63-1} x payloads {valid requests incl. write requests whose points are undecodable or malformed, random bytes, truncated}, 1-4 frames per connection; after every stream the child must be alive and still serve a valid write; ReadLV/WriteTLV on the same byte strings in-process; request/response Marshal/Unmarshal round trips; non-trivial = a stream with a malformed or boundary length, or a rejected/failed request; distinct = distinct op list"
 }
@@ -242,6 +246,21 @@ func (Prop) Generate(r *fw.Rand, tier string) []fw.Case {
 		ops = append(ops, "ping")
 		cases = append(cases, fw.Case{Ops: ops, Tags: tags})
 	}
+	// storage reads that reach the cursors of a shard holding data: every group kind with
+	// every aggregate type, known or not
+	for _, at := range []int32{0, 1, 2, 3, 100, -1} {
+		for _, grp := range []int32{0, 2} {
+			req := datatypes.ReadGroupRequest{ReadSource: readSource("db0", "rp0"), Range: datatypes.TimestampRange{Start: -1 << 62, End: 1 << 62},
+				Group: datatypes.ReadGroupRequest_Group(grp), Aggregate: &datatypes.Aggregate{Type: datatypes.Aggregate_AggregateType(at)}}
+			if grp == 0 {
+				req.GroupKeys = []string{"host"}
+			}
+			m := &coordinator.StoreReadGroupRequest{ShardIDs: []uint64{1}, Request: req}
+			if b, err := m.MarshalBinary(); err == nil {
+				cases = append(cases, fw.Case{Ops: []string{"ping", "conn " + hx(frame(byte(tStoreReadGroup), int64(len(b)), b)), "ping"}, Tags: []string{"readgroup-aggregate"}})
+			}
+		}
+	}
 	for i := 0; i < n; i++ {
 		var ops []string
 		var tags []string
@@ -264,6 +283,13 @@ func (Prop) Generate(r *fw.Rand, tier string) []fw.Case {
 	nrt := 400
 	if tier == "thorough" {
 		nrt = 40000
+	}
+	// the node lives across cases: every case first writes the standard points itself, so that
+	// what it meets in the shard does not depend on the cases before it (a replay runs alone)
+	for i := range cases {
+		if len(cases[i].Ops) > 0 && cases[i].Ops[0] != "ping" {
+			cases[i].Ops = append([]string{"ping"}, cases[i].Ops...)
+		}
 	}
 	for i := 0; i < nrt; i += 8 {
 		var ops []string
@@ -535,6 +561,7 @@ func runOp(op string) (out string) {
 		}
 		time.Sleep(5 * time.Millisecond)
 		if !c.alive() {
+			c.noteDeath()
 			return "DEAD"
 		}
 		// only the replies to the two requests handleConn frames itself are predicted by the
